@@ -103,3 +103,16 @@ func VerifTwoPCInternalHalf(rcvr *TwoPCReceiver, arg TwoPCRequest, reply *TwoPCR
 // VerifTwoPCFilterHalfSource is the body of receiveFiltered that VerifTwoPCFilterHalf was transcribed from,
 // comments and white space removed.
 const VerifTwoPCFilterHalfSource = `func(twopc*TwoPCArchetypeResource)receiveFiltered(argTwoPCRequest,reply*TwoPCResponse)error{twopc.enterMutex("CheckSenderTime",write)senderKey:=twopc.senderKey(arg.Sender)iftwopc.senderTimes[senderKey]>arg.SenderTime{twopc.log(infoLevel,"Ignoreoldmessage%v",arg)*reply=makeAccept()twopc.leaveMutex("CheckSenderTime",write)returnnil}else{twopc.senderTimes[senderKey]=arg.SenderTimetwopc.leaveMutex("CheckSenderTime",write)}returntwopc.receiveInternal(arg,reply)}`
+
+// VerifTwoPCRollbackWithWindow is a transcription of rollback() with a callback between its two steps
+// (the Abort is built under the read lock; broadcastAbortOrCommit then reads res.version again without
+// the lock).  Used only by a development test that shows what happens when a Commit is installed in that
+// window; no configuration of the C11 check uses it.
+func VerifTwoPCRollbackWithWindow(rcvr *TwoPCReceiver, window func()) {
+	res := rcvr.twopc
+	res.enterMutex("rollback", read)
+	request := res.makeAbort()
+	res.leaveMutex("rollback", read)
+	window()
+	res.broadcastAbortOrCommit(request)
+}
